@@ -284,6 +284,24 @@ def call_builtin(eng, fn, args, kwargs):
                     return (GuardedList(out),)
                 return ([i for _, i in out],)
             return NOT_HANDLED
+    import itertools as _it
+    if fn is _it.groupby:
+        items = list(a0) if not isinstance(a0, Sym) else None
+        if items is None:
+            raise Unsupported('groupby over a symbolic collection')
+        keyf = kwargs.get('key', args[1] if len(args) > 1 else None)
+        out = []
+        for x in items:
+            k = eng.call(keyf, [x], {}) if keyf is not None else x
+            if isinstance(k, SEnum):
+                k = eng.concretize_enum(k)
+            if isinstance(k, Sym):
+                raise Unsupported('groupby with a symbolic key')
+            if out and out[-1][0] == k:
+                out[-1][1].append(x)
+            else:
+                out.append((k, [x]))
+        return out
     # copy
     if fn is _copy.deepcopy:
         return deepcopy(eng, a0)
